@@ -19,6 +19,7 @@ import (
 	"sort"
 	"strings"
 	"sync"
+	"sync/atomic"
 	"testing"
 
 	"github.com/XiaoMi/Gaea/internal/verifkit"
@@ -241,6 +242,10 @@ func piStmtClass(id string) string {
 
 const piNsName = "ns_planiso"
 
+// fake MySQL backends (proto_common_test.go) behind the two slices: COM_FIELD_LIST really travels to a backend
+var piBackends []*fakeBackend
+var piTokenSeq uint64
+
 func piNamespaceConfig(variant int) *models.Namespace {
 	slices := []string{"slice-0", "slice-1"}
 	cfg := &models.Namespace{
@@ -253,8 +258,8 @@ func piNamespaceConfig(variant int) *models.Namespace {
 		Users: []*models.User{{UserName: "u_pi", Password: "pw", Namespace: piNsName,
 			RWFlag: models.ReadWrite, RWSplit: models.NoReadWriteSplit}},
 		Slices: []*models.Slice{
-			{Name: "slice-0", UserName: "root", Password: "root", Master: "127.0.0.1:1#c3", Capacity: 4, MaxCapacity: 8, IdleTimeout: 3600},
-			{Name: "slice-1", UserName: "root", Password: "root", Master: "127.0.0.1:1#c3", Capacity: 4, MaxCapacity: 8, IdleTimeout: 3600},
+			{Name: "slice-0", UserName: "root", Password: "root", Master: piBackends[0].addr() + "#c3", Capacity: 32, MaxCapacity: 64, IdleTimeout: 3600},
+			{Name: "slice-1", UserName: "root", Password: "root", Master: piBackends[1].addr() + "#c3", Capacity: 32, MaxCapacity: 64, IdleTimeout: 3600},
 		},
 		ShardRules: []*models.Shard{
 			{DB: "db_ks", Table: "tbl_ks", Type: "mod", Key: "id", Locations: []int{2, 2}, Slices: slices},
@@ -332,6 +337,8 @@ func (e *piEnv) session() *SessionExecutor {
 	se.namespace = piNsName
 	se.user = "u_pi"
 	se.db = "db_ks"
+	se.SetCollationID(mysql.CollationID(33))
+	se.SetCharset("utf8")
 	cc := new(Session)
 	cc.proxy = e.srv
 	cc.manager = e.mgr
@@ -354,9 +361,22 @@ func piPlan(se *SessionExecutor, stmtID, dbID string) string {
 	var out string
 	panicked, msg, _ := verifkit.Catch(func() {
 		if strings.HasPrefix(sql, "fieldlist:") {
-			// SessionExecutor.handleFieldList's use of the router
-			rule := ns.GetRouter().GetRule(db, strings.TrimPrefix(sql, "fieldlist:"))
-			out = "fieldlist|" + rule.GetSlice(0)
+			// the real COM_FIELD_LIST handler: rule lookup, backend connection of the rule's slice, physical database;
+			// rendered as what reached which backend (the wildcard carries a token that identifies this call)
+			table := strings.TrimPrefix(sql, "fieldlist:")
+			token := fmt.Sprintf("tok%d", atomic.AddUint64(&piTokenSeq, 1))
+			se.SetDatabase(db)
+			_, err := se.handleFieldList(util.NewRequestContext(), []byte(table+"\x00"+token))
+			if err != nil {
+				out = "fieldlist|error|" + err.Error()
+				return
+			}
+			out = "fieldlist|not seen by any backend"
+			for _, b := range piBackends {
+				if v, ok := b.fieldList(token); ok {
+					out = "fieldlist|" + v
+				}
+			}
 			return
 		}
 		reqCtx := util.NewRequestContext()
@@ -439,6 +459,13 @@ func TestVerifPlanIsolation(t *testing.T) {
 		t.Fatal(err)
 	}
 	defer os.RemoveAll(tmp)
+	for i := 0; i < 2; i++ {
+		fb, err := startFakeBackend(i)
+		if err != nil {
+			t.Fatalf("fake backend: %v", err)
+		}
+		piBackends = append(piBackends, fb)
+	}
 	env, err := piSetup(tmp)
 	if err != nil {
 		t.Fatalf("setup: %v", err)
